@@ -50,11 +50,17 @@ func c20OpGen() *rapid.Generator[op] {
 	})
 }
 
+// opsGen draws the length first (rapid's own slice lengths are heavily biased to short lists).
+func opsGen(g *rapid.Generator[op], rt *rapid.T) []op {
+	n := rapid.SampledFrom([]int{1, 2, 3, 5, 8, 12, 16, 20, 24, 28, 32, 36, 40}).Draw(rt, "nops")
+	return rapid.SliceOfN(g, n, n).Draw(rt, "ops")
+}
+
 func c20Gen(rt *rapid.T) c20Case {
 	return c20Case{
 		ParsedW:   rapid.IntRange(1, 3).Draw(rt, "parsedW"),
 		AcceptedW: rapid.IntRange(1, 3).Draw(rt, "acceptedW"),
-		Ops:       rapid.SliceOfN(c20OpGen(), 1, 40).Draw(rt, "ops"),
+		Ops:       opsGen(c20OpGen(), rt),
 	}
 }
 
@@ -118,11 +124,8 @@ func c20Run(c c20Case, st *vstat.Stats) (err error) {
 		return wrapStep(len(c.Ops), op{K: "final"}, err)
 	}
 	// after the queue drained the executed tip is the engine's last accepted block
-	a, aerr := e.ch.ci.GetLastAccepted(e.ctx)
-	if aerr != nil || a.id != e.last {
-		return fmt.Errorf("after the accept queue drained ConsensusIndex.GetLastAccepted = %s/%v, engine's last accepted is %s", a, aerr, e.blocks[e.last].b)
-	}
-	return nil
+	// (the accepter publishes the executed tip just after it sent the notification: wait for it)
+	return e.awaitExecutedTip()
 }
 
 func wrapStep(i int, o op, err error) error {
